@@ -9,12 +9,91 @@ from vlib import *
 from props import c02
 
 
+def make_pfault(quick):
+    """callback for c05.json_job: for a few texts of the schema, the k-th allocator request during the generated parser's run is refused, for EVERY k
+    (once / from then on), on a fresh builder; afterwards reset + the same parse without faults + clear (json_main.c.in `pfault`)"""
+    def mut(r, prog, rt_lines, metas):
+        texts = []
+        for l in rt_lines:
+            t = l.split(" ")
+            if len(t) > 7 and t[7].startswith("pok") and t[6] != "-" and len(t[6]) <= 6000:
+                try: texts.append((metas[int(t[1])]["ti"], t[6], int(t[4])))
+                except ValueError: pass
+        r.shuffle(texts)
+        texts = texts[:2 if quick else 6]
+        base_lines = ["pfault %d %d 0 0 %s" % (ti, jf, hx) for (ti, hx, jf) in texts]
+        rc, base, err0 = run_lines([prog, "pfault"], base_lines, timeout=300, sticky=None)
+        lines, ref = [], []
+        for (ti, hx, jf), b in zip(texts, base):
+            m = re.match(r"pok calls=(\d+) verify=0 (\S*) \| again pok verify=0 (\S*)$", b)
+            if not m or m.group(2) != m.group(3): continue
+            for k in range(1, min(int(m.group(1)), 80) + 1):
+                for rep in (0, 1):
+                    lines.append("pfault %d %d %d %d %s" % (ti, jf, k, rep, hx)); ref.append(m.group(2))
+        rc, out, err = run_lines([prog, "pfault"], lines, timeout=600, sticky=None)
+        bad, nfail, nok = [], 0, 0
+        for l, o, d in zip(lines, out, ref):
+            det = dict(op=l[:3000], output=o[:1200], text=bytes.fromhex(l.split(" ")[5]).decode("latin1")[:800])
+            if o.startswith("<"):
+                det["stderr"] = err[-2500:]
+                bad.append(("generated parser faulted (sanitizer report / signal) when an allocation was refused during the parse", det)); continue
+            first, _, again = o.partition(" | ")
+            if first.startswith("perr=") or first.startswith("finalize-failed") or first.startswith("init-failed"):
+                nfail += 1      # the parse call returned non-zero (its failure value); an error code in the context is C04's business
+            elif first.startswith("pok"):
+                nok += 1
+                mm = re.match(r"pok calls=\d+ verify=(-?\d+) (\S*)", first)
+                if not mm or mm.group(1) != "0" or mm.group(2) != d:
+                    bad.append(("a parse during which an allocation was refused reports success with a buffer that does not verify / differs from the fault-free result", det))
+            else: bad.append(("unexpected harness output", det))
+            if again != "again pok verify=0 " + d:
+                bad.append(("after a parse with a refused allocation, reset + the same parse on the same builder does not give the fault-free result", det))
+        return dict(bad=bad[:20], nbad=len(bad), lines=len(lines), failed=nfail, succeeded=nok, texts=len(texts), skipped=sum(1 for b in base if not b.startswith("pok")))
+    return mut
+
+
+def json_fault_stage(ctx):
+    from props import c05
+    from concurrent.futures import ThreadPoolExecutor
+    flatcc, _ = build_flatcc(ctx)
+    rtj = build_runtime_objs(ctx, flags=["-O1", "-g", "-fsanitize=address", "-fno-omit-frame-pointer", "-DNDEBUG"], tag="rtj")
+    mut = make_pfault(ctx.quick())
+    jobs = [(ctx.work, flatcc, rtj, ctx.seed + 77, si, 8, mut) for si in range(8 if ctx.quick() else 80)]
+    with ThreadPoolExecutor(16) as ex:
+        results = list(ex.map(c05.json_job, jobs))
+    bad, stats = [], dict(json_fault_lines=0, json_fault_failed=0, json_fault_succeeded=0, json_fault_texts=0)
+    # fixed scenario: a union vector with 3000 elements (its type vector is larger than the parser's user stack at that point), every request refused in turn
+    d = os.path.join(ctx.work, "ufault"); os.makedirs(d, exist_ok=True)
+    open(os.path.join(d, "s.fbs"), "w").write("table A { x:int; }\nunion U { A }\ntable T { v:[U]; }\nroot_type T;\n")
+    rc, out, err = sh([flatcc, "-a", "--json", "-o", d, os.path.join(d, "s.fbs")])
+    if rc != 0: raise BuildError("flatcc rejects the union-vector fault schema: " + (out + err)[-300:])
+    exe = build_harness(ctx, "ufault_prog", [os.path.join(VERIF, "harness/ufault.c")], rtj, incs=[d], flags=["-O1", "-g", "-w", "-DNDEBUG", "-fsanitize=address", "-fno-omit-frame-pointer"])
+    rc, out, err = sh([exe], timeout=300, env=ASAN_ENV)
+    stats["json_fault_union_vector_scenario"] = (out.strip().split("\n") or [""])[-1][:80]
+    if rc != 0 or "BAD" in out or "done " not in out:
+        bad.append(("JSON parse of a 3000-element union vector with a refused allocation: %s" % ("sanitizer report / crash" if rc != 0 else "wrong result"),
+                    dict(op="harness/ufault.c (schema: table A { x:int; } union U { A } table T { v:[U]; })", output=out[-600:], stderr=err[-2500:])))
+    for res in results:
+        m = res.get("mut")
+        if "error" in res or not m: continue
+        stats["json_fault_lines"] += m["lines"]; stats["json_fault_failed"] += m["failed"]; stats["json_fault_succeeded"] += m["succeeded"]; stats["json_fault_texts"] += m["texts"]
+        for why, det in m["bad"]:
+            det["schema_fbs"] = res["fbs"]; bad.append((why, det))
+    return stats, bad
+
+
 def run(ctx):
     ths = proof_stage(ctx)
     if ths is None:
         finish(ctx, [])
     quick = ctx.quick()
     r = ctx.rng
+    jf_stats, jf_bad = json_fault_stage(ctx)
+    ctx.cov.update(jf_stats)
+    if jf_bad:
+        why, det = jf_bad[0]
+        det.update({"kind": "property-fails-on-implementation", "why": why, "count": len(jf_bad)})
+        violation(ctx, "jsonfault_%d.json" % ctx.seed, det)
     rt = build_runtime_objs(ctx, tag="rtnd", extra_defs=("-DNDEBUG",))
     h = build_harness(ctx, "h_build", [os.path.join(VERIF, "harness/h_build.c")], rt, defs=("-DNDEBUG",))
     mdefs = ("-DNDEBUG", "-DFLATCC_ALLOC=h_malloc", "-DFLATCC_CALLOC=h_calloc", "-DFLATCC_REALLOC=h_realloc", "-DFLATCC_FREE=h_free",
